@@ -31,6 +31,7 @@ func (c17) Gen(r *rand.Rand, tier string, run int) *core.Case {
 	c.Net.Capacity = []int{0, 64, 4096}[r.IntN(3)]
 	c.Net.Abortive = []int{0, 50}[r.IntN(2)]
 	c.Net.EOFData = []int{0, 50}[r.IntN(2)]
+	c.Net.CloseErr = []int{0, 0, 100}[r.IntN(3)]
 	actors := 2 + r.IntN(4)
 	shutdown := r.IntN(4) // 0: nobody shuts down inside the race (main closes at the end)
 	for a := 0; a < actors; a++ {
